@@ -19,10 +19,13 @@ mod c08;
 mod c09;
 mod replicas;
 mod c10;
+mod c11;
 mod c12;
 mod c13;
+mod c14;
 mod c15;
 mod c16;
+mod c17;
 mod c18;
 mod c19;
 mod msgs;
@@ -45,74 +48,17 @@ fn parts_for(id: &str) -> Option<(&'static str, Vec<Box<dyn DynPart>>, Vec<Strin
         "C08" => ("C08", c08::parts(), none),
         "C09" => ("C09", c09::parts(), none),
         "C10" => ("C10", c10::parts(), none),
+        "C11" => ("C11", c11::parts(), none),
         "C12" => ("C12", c12::parts(), none),
         "C13" => ("C13", c13::parts(), none),
+        "C14" => ("C14", c14::parts(), none),
         "C15" => ("C15", c15::parts_all(), none),
         "C16" => ("C16", c16::parts(), none),
+        "C17" => ("C17", c17::parts(), none),
         "C18" => ("C18", c18::parts(), none),
         "C19" => ("C19", c19::parts(), none),
         _ => return None,
     })
-}
-
-/// Parent side of `vp check`: runs the real check in a child process; if the child is killed (abort,
-/// segfault, ...) the breadcrumbs left by its shards are re-run one by one in fresh children and the
-/// case that kills the process again is reported as a violation.
-fn supervise(args: &[String]) -> i32 {
-    let id = args[2].clone();
-    let dir = format!("/dev/shm/vp-crumbs-{}", std::process::id());
-    let _ = std::fs::remove_dir_all(&dir);
-    let crumbs_ok = std::fs::create_dir_all(&dir).is_ok();
-    let mut cmd = std::process::Command::new(std::env::current_exe().unwrap());
-    cmd.args(&args[1..]).arg("--worker");
-    if crumbs_ok {
-        cmd.env("VP_CRUMBS", &dir);
-    }
-    let status = cmd.status().expect("spawn worker");
-    let code = match status.code() {
-        Some(c @ (0 | 1 | 2)) => c,
-        _ => {
-            println!("worker process for {id} terminated abnormally ({status}); looking for the case that did it");
-            let mut verdict = 2;
-            if let Ok(rd) = std::fs::read_dir(&dir) {
-                let mut files: Vec<_> = rd.filter_map(|e| e.ok()).map(|e| e.path()).collect();
-                files.sort();
-                for f in files {
-                    let name = f.file_name().unwrap().to_string_lossy().to_string();
-                    let part = name.rsplit_once('-').map(|(p, _)| p.to_string()).unwrap_or(name.clone());
-                    let Some(choices) = crate::core::Crumb::read(f.to_str().unwrap()) else { continue };
-                    let tmp = format!("{dir}/replay-{name}.json");
-                    let body = serde_json::json!({
-                        "property": id, "part": part, "signature": "process-crash",
-                        "message": format!("running this case terminated the process abnormally ({status})"),
-                        "choices": choices,
-                    });
-                    std::fs::write(&tmp, serde_json::to_string_pretty(&body).unwrap()).unwrap();
-                    let st = std::process::Command::new(std::env::current_exe().unwrap())
-                        .args(["replay", &tmp, "--worker"])
-                        .stdout(std::process::Stdio::null())
-                        .status()
-                        .expect("spawn replay worker");
-                    if !matches!(st.code(), Some(0 | 1 | 2)) {
-                        let out_dir = format!("{}/replays", crate::core::VERIF_DIR);
-                        let _ = std::fs::create_dir_all(&out_dir);
-                        let path = format!("{out_dir}/{id}-{part}-crash-{:016x}.json", crate::core::hash_words(&choices));
-                        std::fs::copy(&tmp, &path).unwrap();
-                        println!("--- case of {id}/{part} that kills the process ({st}); replay with ./check --replay {path}");
-                        println!("VIOLATION property={id} replay={path}");
-                        verdict = 1;
-                        break;
-                    }
-                }
-            }
-            if verdict == 2 {
-                println!("INCONCLUSIVE: worker for {id} died ({status}) and no single breadcrumb case reproduces it");
-            }
-            verdict
-        },
-    };
-    let _ = std::fs::remove_dir_all(&dir);
-    code
 }
 
 fn usage() -> ! {
@@ -130,32 +76,16 @@ fn main() {
     }
     match args[1].as_str() {
         "check" if !args.iter().any(|a| a == "--worker") => {
-            exit(supervise(&args));
+            exit(crate::core::supervise(&args));
         },
         "replay" if !args.iter().any(|a| a == "--worker") => {
-            // run the replay in a child so that a case which kills the process is still reported
-            let status = std::process::Command::new(std::env::current_exe().unwrap())
-                .args(&args[1..])
-                .arg("--worker")
-                .status()
-                .expect("spawn replay worker");
-            match status.code() {
-                Some(c @ (0 | 1 | 2)) => exit(c),
-                _ => {
-                    let v: serde_json::Value = std::fs::read_to_string(&args[2])
-                        .ok()
-                        .and_then(|t| serde_json::from_str(&t).ok())
-                        .unwrap_or(serde_json::Value::Null);
-                    println!("replay: the case terminated the process abnormally ({status})");
-                    println!("VIOLATION property={} replay={}", v["property"].as_str().unwrap_or("?"), args[2]);
-                    exit(1)
-                },
-            }
+            exit(crate::core::supervise_replay(&args));
         },
         "check" => {
             let id = args[2].as_str();
             let mut tier = std::env::var("VERIF_TIER").unwrap_or_else(|_| "quick".into());
             let mut only_part: Option<String> = None;
+            let mut external: Option<String> = None;
             let mut i = 3;
             while i < args.len() {
                 match args[i].as_str() {
@@ -168,6 +98,10 @@ fn main() {
                         i += 2;
                     },
                     "--worker" => i += 1,
+                    "--external" => {
+                        external = Some(args.get(i + 1).cloned().unwrap_or_else(|| usage()));
+                        i += 2;
+                    },
                     _ => usage(),
                 }
             }
@@ -200,13 +134,30 @@ fn main() {
                     }
                 }
                 let r = p.run(&cfg, &known);
+                if std::env::var("VP_SHARD").is_ok() {
+                    // a shard child of a process-isolated part: hand the result to the parent
+                    println!("VP_SHARD_RESULT {}", crate::core::part_result_to_json(&r));
+                    exit(0);
+                }
                 let failed = r.failure.is_some();
                 report.parts.push(r);
                 if failed {
                     break;
                 }
             }
-            exit(report.finish());
+            if let Some(path) = external {
+                if let Ok(text) = std::fs::read_to_string(&path) {
+                    if let Ok(v) = serde_json::from_str::<serde_json::Value>(&text) {
+                        if v["property"].as_str() == Some(sid) {
+                            report.external = v["parts"].as_array().cloned().unwrap_or_default();
+                            report.external_wall_s = v["wall_s"].as_f64().unwrap_or(0.0);
+                        }
+                    }
+                }
+            }
+            let code = report.finish();
+            c17::cleanup_scratch();
+            exit(code);
         },
         "replay" => {
             let text = std::fs::read_to_string(&args[2]).unwrap_or_else(|e| {
@@ -250,6 +201,14 @@ fn main() {
                     exit(1)
                 },
             }
+        },
+        "describe" => {
+            let v: serde_json::Value = serde_json::from_str(&std::fs::read_to_string(&args[2]).unwrap()).unwrap();
+            let choices: Vec<u64> = v["choices"].as_array().unwrap().iter().filter_map(|x| x.as_u64()).collect();
+            let (_, parts, _) = parts_for(v["property"].as_str().unwrap()).unwrap();
+            let p = parts.iter().find(|p| p.part() == v["part"].as_str().unwrap()).unwrap();
+            println!("{}", serde_json::to_string_pretty(&p.describe(&choices)).unwrap());
+            exit(0)
         },
         "repeat" => {
             // debugging aid: run one saved case N times in this process and print each outcome
